@@ -26,11 +26,15 @@ func NewLocation(f *fs.File, i bytes.Index) Location {
 
 // lineAndColumn returns the line and the column of the position i. The end of the
 // content is a position too (an "unexpected end of file" error points there, and its
-// quote is the last line): bytes.Bytes.LineAndColumn answers 0:0 for it.
+// quote is the last line): bytes.Bytes.LineAndColumn answers 0:0 for it. The only
+// position of an empty content is its end, the beginning of line 1.
 func lineAndColumn(c bytes.Bytes, i bytes.Index) (line, column bytes.Index) {
 	n := c.LenIndex()
-	if n == 0 || i != n {
+	if i != n {
 		return c.LineAndColumn(i)
+	}
+	if n == 0 {
+		return 1, 1
 	}
 	line, column = c.LineAndColumn(n - 1)
 	if c.Byte(n-1) == c.NewLineSymbol() {
